@@ -770,9 +770,32 @@ func equivalentCheckConfigInV2(
 			return !ok
 		},
 	)
+	// A rule that does not exist in v2 cannot be asked for in a v2 file: naming it
+	// would make the migrated file fail with "not a known rule or category ID".
+	v2Rules, err := client.AllRules(ctx, ruleType, bufconfig.FileVersionV2)
+	if err != nil {
+		return nil, err
+	}
+	v2IDsMap := slicesext.ToStructMap(slicesext.Map(v2Rules, func(rule bufcheck.Rule) string { return rule.ID() }))
+	missingIDs = slicesext.Filter(
+		missingIDs,
+		func(missingID string) bool {
+			_, ok := v2IDsMap[missingID]
+			if !ok {
+				logger.Warn(fmt.Sprintf("%s rule %s does not exist in v2 and is left out of the migrated configuration", ruleType.String(), missingID))
+			}
+			return ok
+		},
+	)
+	useIDsAndCategories := simplyTranslatedCheckConfig.UseIDsAndCategories()
+	if len(useIDsAndCategories) == 0 && len(missingIDs) > 0 {
+		// An empty use means "the default rules". Adding IDs to it would replace the
+		// defaults instead of extending them, so the defaults are spelled out.
+		useIDsAndCategories = simplyTranslatedIDs
+	}
 	return bufconfig.NewEnabledCheckConfig(
 		bufconfig.FileVersionV2,
-		append(simplyTranslatedCheckConfig.UseIDsAndCategories(), missingIDs...),
+		append(useIDsAndCategories, missingIDs...),
 		append(simplyTranslatedCheckConfig.ExceptIDsAndCategories(), extraIDs...),
 		simplyTranslatedCheckConfig.IgnorePaths(),
 		simplyTranslatedCheckConfig.IgnoreIDOrCategoryToPaths(),
